@@ -31,6 +31,9 @@ C['C12'] = ("model_checking", U + "a second identical update on the unchanged tr
  "Canon is judged on Manifests written in both runs; with permuted old entries every Manifest is force-rewritten (an unrewritten Manifest legitimately keeps its order).")
 C['C13'] = ("model_checking", U + "the watermark rule on every Manifest (re)written by a save (compressed iff uncompressed size >= watermark, already compressed ones keep their format, new ones use the requested format, top-level Manifest never compressed, no second file for one logical Manifest) with watermarks at every Manifest size -1/0/+1, and transparency groups: the same tree under four assignments of plain/gz/bz2/lzma/xz to its sub-Manifests must give identical verification and lookup observations.",
  "old-ebuild package Manifests (EBUILD entries) are exempt from the iff (profile rule, C19).")
+C['C11'] = ("model_checking",
+ "Incremental.tla: two Manifest replicas over one tree, clock in half seconds, environment edits with explicit mtimes (older/equal/newer than the previous TIMESTAMP), modifications interleaved between the per-file steps of a running update, zone offsets -1/0/+1; TLC checks IncEqualsFull and TimestampNotLate over all interleavings (and exhibits the historical local-time defect with UtcRead=FALSE). The real CLI is driven on two copies (update --incremental vs update) for 1-3 rounds with os.utime-controlled mtimes incl. sub-second offsets, a virtual clock, a modification injected after the k-th hashed file, TZ in {UTC, east, west}; TraceIncremental.tla judges every file of every round.",
+ "Spec->code replay of individual TLC behaviours is not implemented for this property (the seeded histories draw from the same action alphabet); mtime == TIMESTAMP exactly is lenient.")
 man = {
  "version": 1,
  "setup_cmd": "cd /verif && ./tools/setup.sh",
